@@ -354,6 +354,6 @@ func (n *Nodis) MSet(pairs ...string) {
 		return
 	}
 	for i := 0; i < len(pairs); i += 2 {
-		n.Set(pairs[i], unsafe.Slice(unsafe.StringData(pairs[i+1]), len(pairs[i+1])), false)
+		n.Set(pairs[i], []byte(pairs[i+1]), false)
 	}
 }
